@@ -284,3 +284,29 @@ prop('C20', 'serde support is transparent',
      'the way (single reference), requiring only S: Default.',
      'Equality of token streams for all values (with the shape fixed the container\'s stream is the pointee\'s stream by construction).',
      configs=['A', 'S'])
+
+from . import typelevel as TL
+
+prop('C19', 'thread-safety markers follow the pointee',
+     [TL.rule_auto_trait_matrix, TL.rule_no_unsafe_auto_impl, TL.rule_witnesses],
+     'Decides the property as stated, by rustc\'s trait solver, on a generated matrix: every public wrapper (container, guard, '
+     'caches, maps, map guards, access guards, Constant, DynGuard) x pointer kind (Arc, Option<Arc>, Rc, Option<Rc>, Weak, '
+     'rc::Weak) x pointee class (Send+Sync, Send only, Sync only, neither) x strategy. Oracle written from the property text: '
+     'soundness W: Send => P: Send, W: Sync => P: Sync (and => P: Send for containers / holders of a shared container); '
+     'completeness P: Send+Sync => W: Send+Sync. P\'s own verdict is asked of rustc in the same program. Plus: no explicit '
+     'Send/Sync impl exists in the crate (with a positive control), and compile-pass / compile-fail witnesses with twins.',
+     'Custom RefCnt kinds are outside the quantifier.',
+     level='proof', engine='type-level',
+     technique='static analysis: generated type-level witness crate decided by rustc trait solver (const assertions per cell) + impl enumeration over MIR facts + compile-fail witnesses with compiling twins')
+
+prop('C10', 'guards are self-contained snapshots',
+     [TL.rule_witnesses, P.rule_never_freed, R.rule_claim_empty, O.rule_inuse_fsm, R.rule_slot_closed, A.rule_access_shape,
+      L.rule_ledger, _inc_protected, R.rule_cover_all, T.rule_cooldown_owned],
+     'Decides: a Guard / full value / Arc-backed cache carries no borrow of the container and is \'static + Send when the '
+     'pointer is (compile-pass witnesses; the borrow-checker twins show that reference-backed maps and caches cannot outlive '
+     'it) (NO-BORROW); the &\'static Debt inside a guard stays valid after the creating thread exits because nodes are never '
+     'freed (NEVER-FREED) and the writers\' pay walk visits every node whatever its owner state (COVER-ALL); a new owner of a '
+     'recycled node claims only empty slots (CLAIM-EMPTY, INUSE-FSM); beyond the fast slots the fallback returns an owning '
+     'guard and frees the helping slot (SLOT-CLOSED); a guard never re-reads the container (DEREF-PURE); Drop / into_inner '
+     'release exactly what is held and take their count while still protected (LEDGER, INC-PROTECTED).',
+     'The orders of guard drop / container drop / thread exit / node reuse as executions are NOT explored.')
